@@ -12,7 +12,14 @@ Round 5: PLACED sessions (sessions.gen_stat_session: chunks lying exactly on the
 contain the origin, the extremum only in the first / a middle / the last chunk, chunks whose return numbers are all zero or all one
 value) go through the model and the oracle like the random ones, with a second one-shot reference (LasData.write); SIZE sessions
 (sessions.size_session: one write_points call of more than 2^20 points, lengths that are exact multiples of 65536, strided records)
-are judged by the oracle alone: every partition of the same points gives the same bytes, and the file says how many points it holds."""
+are judged by the oracle alone: every partition of the same points gives the same bytes, and the file says how many points it holds.
+Round 6: REPRESENTATION / SCALING / FAULT sessions (sessions.gen_r6_session; Model/WriterFault.v, `fsess` of bin/lasmodel_c04): chunks as
+strided views of every step and sign and of shrinking sizes after one another, read-only memory, ScaleAwarePointRecords whose scaling
+differs from the writer's by one ulp .. metres at UTM magnitudes .. everything, write_evlrs failing after k bytes (destination fault or
+an EVLR description the strict codec refuses) and write_points refused by the destination, each followed by continued use of the writer.
+Oracle: the file is the one-shot file of the accepted points IN THE WRITER'S SYSTEM (laspy's public change_scaling on a private copy;
+and, independently of it, every coordinate presented by a chunk is read back to within half a step); once write_evlrs has put a byte
+behind the points every later chunk is refused and the file left unchanged."""
 import io
 import shutil
 import tempfile
@@ -176,9 +183,68 @@ def size_sessions_for(ctx):
             plan.append((rng.choice([65535, 65536, 65537, 131072, 131073, 196608, 3 * 65536 + 1]), v, f, rng.choice([1, 1, 2, -1, 3])))
         if ctx.thorough():
             plan += [(2 * B + rng.choice([1, 2, 9]), "1.4", 6, 1), (2 * B, "1.3", 1, 1), (B, "1.2", 0, 1), (B + 1, "1.4", 0, 2), (B + 65536, "1.1", 1, -1),
-                     (B + rng.randrange(1, 65536), rng.choice(lasio.VERSIONS), 0, 1), (16 * 65536, "1.4", 7, 2), (17 * 65536, "1.2", 3, 3)]
+                     (B + rng.randrange(1, 65536), rng.choice(lasio.VERSIONS), 0, 1), (16 * 65536, "1.4", 7, 2), (17 * 65536, "1.2", 3, 3),
+                     ((64 << 20) // 20 + rng.choice([1, 7, 4096]), "1.2", 0, 1)]      # round 6: more than 64 MiB in one write_points call
         _SIZE = [sessions.size_session(rng, n, v, f, nparts=ctx.n(2, 4), stride=st) for n, v, f, st in plan]
     return _SIZE
+
+
+_R6 = None
+
+
+def r6_sessions_for(ctx):
+    """class round 6: representation / scaling / fault sessions, generated and executed"""
+    global _R6
+    if _R6 is None:
+        size_sessions_for(ctx)
+        _R6 = []
+        for _ in range(ctx.n(500, 5000)):
+            s = sessions.gen_r6_session(ctx.rng, ctx.thorough())
+            s["run"] = sessions.run_r6_session(s)
+            _R6.append(s)
+    return _R6
+
+
+def describe_r6(s):
+    h = s["header"]
+    ops = []
+    for op in s["ops"]:
+        if op[0] in ("P", "PF"):
+            i = op[3]
+            t = f"w.write_points(<{i['records']} records"
+            if i.get("foreign"):
+                t += " of ANOTHER point format"
+            if "scaling" in i:
+                t += f", ScaleAwarePointRecord, scaling vs the header's: {i['scaling']} (scales {i['scales']}, offsets {i['offsets']})"
+            if i.get("as"):
+                t += ", " + i["as"]
+            if i.get("representation", "plain") != "plain":
+                t += ", as " + i["representation"]
+            t += ">)"
+            if op[0] == "PF":
+                t += "   # the destination raises OSError during this call, nothing is stored"
+            ops.append(t)
+        elif op[0] == "E":
+            ops.append(f"w.write_evlrs(<{len(op[1])} records>)")
+        elif op[0] == "EF":
+            ops.append(f"w.write_evlrs(<{len(op[1])} records>)   # FAILS: {op[2]['why']}; {op[2]['stored']} bytes of the EVLR section are stored")
+        elif op[0] == "CF":
+            ops.append("w.close()   # FAILS: the destination raises OSError on the header rewrite, nothing is stored")
+        else:
+            ops.append("w.close()")
+    return {"version": str(h.version), "format": h.point_format.id, "extra_dims": len(list(h.point_format.extra_dimensions)),
+            "scales": [float(x) for x in h.scales], "offsets": [float(x) for x in h.offsets],
+            "writer": "laspy.open(dest, mode='w', header=h, closefd=False)" if s["entry"] == "open" else "laspy.LasWriter(dest, h, closefd=False)", "ops": ops}
+
+
+def _norm_fault_outs(s, outs):
+    """outcomes with the injected faults named alike on both sides (which exception the harness's fault surfaces as is not the subject)"""
+    out = []
+    for op, o in zip(s["ops"], outs):
+        if op[0] in ("PF", "EF", "CF") and o.startswith("err:") and o != "err:ELaspy":
+            o = "err:EOther"
+        out.append(o)
+    return out
 
 
 def one_shot_lasdata(header, point_bytes, evl):
@@ -242,6 +308,55 @@ def correspond(ctx):
             mparts = mo.split(" ")
             what = "outcomes" if mparts[0] != ",".join(iouts) else "file bytes"
             dis.append({"kind": f"writer session {what}", "input": d, "model": mo[:120], "impl": expect[:120]})
+    # ---- round 6: representation / scaling / fault sessions vs Model/WriterFault.v
+    ctx.extra["rule"] += (" || R6 sessions (2..12 ops, LasWriter / laspy.open): chunks of 0/1/2/3/5/9/17/40 records as plain arrays, strided views "
+                          "[::2] [::3] [::-1] [::-2] [a:b:k] (half of the sessions mostly strided, sizes growing and shrinking), read-only memory, copies, 0-d; "
+                          "45% ScaleAwarePointRecords whose scaling vs the header's is: equal copy / one ulp / signed zero / relative 1e-9, 1e-7, 5e-6 on everything / "
+                          "metres at UTM magnitude / one axis by 1.0 / doubled, halved / one scale by 1e-6 (half of the headers UTM-like: offsets 5e5, 4e6, 1e2); "
+                          "write_evlrs of 0..3 records, 55% of the non-empty ones on 1.4 FAIL after k >= 2 bytes (destination OSError in the middle of any "
+                          "piece, or a non-ASCII description of EVLR j under the strict codec); 8% of the chunks refused by the destination; foreign chunks; close. "
+                          "non-trivial = a fault, a strided or a differently scaled chunk")
+    r6 = r6_sessions_for(ctx)
+    cmds, idx = [], []
+    for i, s in enumerate(r6):
+        run = s["run"]
+        d = describe_r6(s)
+        nt = any(op[0] in ("PF", "EF", "CF") or (op[0] == "P" and (op[3].get("representation", "plain") != "plain" or "scaling" in op[3])) for op in s["ops"])
+        ctx.case(repr(d), nontrivial=nt, sample=None)
+        for op, o in zip(s["ops"], run["outs"]):
+            if op[0] in ("P", "PF"):
+                ctx.count("r6:chunk:" + op[3].get("representation", "plain").split(" of an")[0].split("[")[0].strip() + ("" if op[0] == "P" else ":refused-by-destination"))
+                if "scaling" in op[3]:
+                    ctx.count("r6:scaling:" + op[3]["scaling"] + "->" + o)
+            elif op[0] == "EF":
+                ctx.count("r6:evlr-fault:" + ("codec" if "evlr" in op[2] else "destination") + "->" + o)
+            elif op[0] == "CF":
+                ctx.count("r6:close-fault->" + o)
+        if run["raw"] is None:
+            continue
+        c = sessions.r6_model_cmd(s)
+        if c is None:
+            ctx.count("r6:sessions:chunk-does-not-fit(oracle only)")
+            continue
+        cmds.append(c)
+        idx.append(i)
+    for i, mo in zip(idx, common.run_model(cmds, name="c04")):
+        s = r6[i]
+        ctx.traces += 1
+        iouts = _norm_fault_outs(s, s["run"]["outs"])
+        m = mo.split(" ")
+        if m[0] != ",".join(iouts):
+            bad = [k for k, (a, b) in enumerate(zip(m[0].split(","), iouts)) if a != b]
+            what = "outcomes"
+            if bad and iouts[bad[0]] == "ok" and s["ops"][bad[0]][0] == "P" and any(o[0] == "EF" for o in s["ops"][:bad[0]]):
+                what = "a chunk is accepted after write_evlrs failed"
+            dis.append({"kind": f"r6 session: {what}", "input": describe_r6(s), "model": m[0][:120], "impl": ",".join(iouts)[:120]})
+        elif len(m) < 2 or m[1] != common.hexb(s["run"]["raw"]):
+            raw = common.hexb(s["run"]["raw"])
+            mm = m[1] if len(m) > 1 else ""
+            diff = next((k for k, (a, b) in enumerate(zip(mm, raw)) if a != b), min(len(mm), len(raw)))
+            dis.append({"kind": "r6 session: file bytes", "input": describe_r6(s), "model": f"{(len(mm) - 1) // 2} bytes",
+                        "impl": f"{len(s['run']['raw'])} bytes, first difference at byte {(diff - 1) // 2}"})
     # ---- aliasing sessions vs Model/WriterAlias.v
     ctx.extra["rule"] += (" || aliasing sessions: every entry point (LasWriter / laspy.open mode w on BytesIO, file stream, path; closefd on/off; plain, "
                           "with-block with the exceptions caught inside, with-block left by the first refused call or by the caller's own exception), "
@@ -313,6 +428,127 @@ def header_diff(a, b):
             if f(a, off, fmt) != f(b, off, fmt):
                 out.append(f"{name}: {f(a, off, fmt)} vs {f(b, off, fmt)}")
     return ("; header fields: " + "; ".join(out)) if out else ""
+
+
+def judge_r6(s):
+    """C04 on one r6 session, on the implementation alone; returns [(kind, observed)]"""
+    import numpy as np
+    import laspy
+    run = s["run"]
+    h = s["header"]
+    outs = run["outs"]
+    if run["raw"] is None or (outs and outs[0].startswith("open-err")):
+        return []
+    res = []
+    size = h.point_format.size
+    finished = False
+    evl_bytes_stored = False
+    pts = b""
+    presented = []          # per accepted scale-aware chunk: (index of its first record, real coordinates it presented)
+    evl_ok = None
+    clean = True            # no fault tore the EVLR section
+    for op, o, same_bytes, grown in zip(s["ops"], outs, run["unchanged"], run["grown"]):
+        if op[0] in ("P", "PF"):
+            rec, info = op[1], op[3]
+            n = len(rec)
+            rep = info.get("representation", "plain")
+            if n == 0:
+                if o != "ok" or not same_bytes:
+                    res.append(("empty chunk not ignored", f"empty chunk: outcome {o}, unchanged={same_bytes}"))
+                continue
+            if not op[2]:
+                if o != "err:ELaspy" or not same_bytes:
+                    res.append(("foreign-format chunk not refused", f"write_points of a foreign format: outcome {o}, file unchanged={same_bytes}"))
+                continue
+            if finished:
+                if o != "err:ELaspy" or not same_bytes:
+                    k = "write after finish not refused" if not evl_bytes_stored or clean else "chunk accepted after a failed write_evlrs had put EVLR bytes behind the points"
+                    res.append((k, f"write_points of {n} records after the writer was finished: outcome {o}, file unchanged={same_bytes} (grew by {grown} bytes)"))
+                continue
+            if op[0] == "PF":
+                if o == "ok" or not same_bytes:
+                    res.append(("chunk refused by the destination left a trace", f"outcome {o}, file unchanged={same_bytes}"))
+                continue
+            want = sessions.in_writers_system(rec, h) if hasattr(rec, "scales") else lasio.rec_bytes(rec)
+            if want is None:
+                if o != "err:EOverflow" or not same_bytes:
+                    res.append(("chunk that does not fit the writer's scaling not refused cleanly", f"outcome {o}, file unchanged={same_bytes}"))
+                continue
+            if o != "ok":
+                res.append(("chunk refused although the writer is not finished", f"write_points of {n} records ({rep}) before any EVLR/close: {o}"))
+                continue
+            if grown != n * size:
+                res.append(("a chunk does not add exactly its records to the file", f"{n} records of {size} bytes ({rep}): the destination grew by {grown} bytes"))
+            if hasattr(rec, "scales"):
+                a = np.atleast_1d(rec.array)
+                presented.append((len(pts) // size, info.get("scaling"),
+                                  [np.asarray(a[k], dtype=np.float64) * float(rec.scales[i]) + float(rec.offsets[i]) for i, k in enumerate("XYZ")]))
+            pts += want
+        elif op[0] == "E":
+            if o == "ok" and len(op[1]) and evl_ok is None and h.version.minor >= 4:
+                evl_ok = op[1]
+                finished = True
+                evl_bytes_stored = True
+        elif op[0] == "EF":
+            if o == "ok":
+                res.append(("harness: the injected write_evlrs fault did not fire", str(op[2])))
+            if grown > 0:
+                evl_bytes_stored = True
+            finished = True
+            clean = False
+        elif op[0] == "CF":
+            if o == "ok" or not same_bytes:
+                res.append(("a close() refused by the destination left a trace (or did not raise)", f"outcome {o}, file unchanged={same_bytes}"))
+            finished = True
+        else:
+            if o != "ok":
+                res.append(("close failed", f"close: {o}"))
+            finished = True
+    for what, op in run["problems"]:
+        res.append((what, f"chunk: {op[3]}"))
+    raw = run["raw"]
+    if res:
+        return res
+    try:
+        hd = lasio.parse_raw(raw)
+        off = hd["offset"]
+        cnt = hd["count"]
+    except Exception as ex:
+        return [("file of the session cannot be parsed", f"{type(ex).__name__}: {ex}")]
+    if clean:
+        try:
+            ref = sessions.one_shot(h, pts, evl_ok if h.version.minor >= 4 else None)
+        except Exception:
+            ref = None
+        if ref is not None and ref != raw:
+            diff = next((i for i, (a, b) in enumerate(zip(ref, raw)) if a != b), min(len(ref), len(raw)))
+            sc = sorted({p[1] for p in presented})
+            kind = "chunked differs from one-shot"
+            if sc and len(ref) == len(raw):
+                kind = "chunked differs from one-shot of the points in the writer's system (a scale-aware chunk of another scaling)"
+            res.append((kind, f"first differing byte at {diff} (lengths {len(raw)} vs {len(ref)}; point data starts at {off}); scalings of the scale-aware chunks vs the header's: {sc}{header_diff(raw, ref)}"))
+    else:
+        if raw[off:off + len(pts)] != pts or cnt * size != len(pts):
+            res.append(("after a failed write_evlrs the point section is not that of the accepted chunks",
+                        f"header count {cnt}, {len(pts) // size} records accepted; point bytes equal: {raw[off:off + len(pts)] == pts}; file length {len(raw)}"))
+    # independent of laspy's change_scaling: what a scale-aware chunk presented is read back to within half a step of the file's scaling
+    if presented and not res:
+        try:
+            arr = np.frombuffer(raw[off:off + len(pts)], dtype=h.point_format.dtype())
+            for first, how, cols in presented:
+                m = len(cols[0])
+                for i, k in enumerate("XYZ"):
+                    got = np.asarray(arr[k][first:first + m], dtype=np.float64) * float(h.scales[i]) + float(h.offsets[i])
+                    err = np.abs(got - cols[i])
+                    tol = 0.5 * float(h.scales[i]) * (1 + 1e-9) + 2e-15 * max(1.0, float(np.abs(cols[i]).max()), abs(float(h.offsets[i])))
+                    if float(err.max()) > tol:
+                        res.append(("a scale-aware chunk of another scaling was stored without being re-expressed",
+                                    f"{k} of the chunk at record {first} (scaling vs the header's: {how}): presented {cols[i][:3].tolist()}, "
+                                    f"stored as {got[:3].tolist()}; error {float(err.max())!r} > half a step {0.5 * float(h.scales[i])!r}"))
+                        break
+        except Exception as ex:
+            res.append(("file of the session cannot be read", f"{type(ex).__name__}: {ex}"))
+    return res
 
 
 def search(ctx, seeds):
@@ -396,6 +632,10 @@ def search(ctx, seeds):
                 add("chunked differs from one-shot", dict(d, routes=[f["base"], lab]),
                     f"the same {r['n']} points: [{f['base']}] and [{lab}] give files that differ first at byte {f['first_diff']} "
                     f"(lengths {f['base_length']} vs {f['length']}){header_diff(b, f['base_head'])}")
+    # ---- round 6: representation / scaling / fault sessions, the property stated on the implementation
+    for s in r6_sessions_for(ctx):
+        for kind, why in judge_r6(s):
+            add(kind, describe_r6(s), why)
     # ---- aliasing sessions: the property stated on the implementation, against the header AS IT WAS WHEN THE WRITER WAS OPENED
     for r in alias_sessions_for(ctx):
         d = r["desc"]
